@@ -484,7 +484,7 @@ func ruleR09_1(c *Check) {
 	var bound []ast.Node
 	f.walk(func(n ast.Node) bool {
 		if is, ok := n.(*ast.IfStmt); ok {
-			if b, ok := unparen(is.Cond).(*ast.BinaryExpr); ok && b.Op == token.GTR && w.fieldOf(b.X) == klen && w.terminates(is.Body.List) {
+			if op, ok := w.cmpRoles(is.Cond, true, w.isField(klen), func(e ast.Expr) bool { return w.fieldOf(e) != klen }); ok && (op == token.GTR || op == token.GEQ) && w.terminates(is.Body.List) {
 				bound = append(bound, is.Cond)
 			}
 		}
